@@ -1402,7 +1402,7 @@ def reachable_under(fn, start, targets, atom_value):
         succ = blk['succ']
         if blk.get('tc') is not None and len(succ) == 2 and None not in succ:
             atom, neg = cfg.branch_atom(b)
-            v = eval3(atom, atom_value) if is_node(atom) else None
+            v = eval3(atom, atom_value, fn) if is_node(atom) else None
             if v is not None:
                 st.append(succ[0] if (v != neg) else succ[1])
                 continue
@@ -1443,7 +1443,7 @@ def exit_reachable_under(fn, start, avoid, atom_value):
         succ = blk['succ']
         if blk.get('tc') is not None and len(succ) == 2 and None not in succ:
             atom, neg = cfg.branch_atom(b)
-            v = eval3(atom, atom_value) if is_node(atom) else None
+            v = eval3(atom, atom_value, fn) if is_node(atom) else None
             if v is not None:
                 taken = v != neg
                 st.append(succ[0] if taken else succ[1])
@@ -1536,7 +1536,7 @@ def _eval_body(g, s, leaf, depth):
     return None
 
 
-def eval3(e, leaf):
+def eval3(e, leaf, fn=None, depth=0):
     """Three-valued truth value of a condition from the values of its operands (leaf(node) -> True/False/None):
     !, && and || are evaluated with Kleene logic, so a join block that branches on a whole short-circuit expression
     is decided whenever its operands decide it."""
@@ -1547,19 +1547,23 @@ def eval3(e, leaf):
     if v is not None:
         return v
     if e['k'] == 'un' and e['op'] == '!':
-        x = eval3(e['e'], leaf)
+        x = eval3(e['e'], leaf, fn, depth)
         return None if x is None else (not x)
     if e['k'] == 'call' and e.get('opc') == '!' and e.get('args'):
-        x = eval3(e['args'][0], leaf)
+        x = eval3(e['args'][0], leaf, fn, depth)
         return None if x is None else (not x)
+    if fn is not None and e['k'] == 'ref' and e.get('dk') == 'local' and depth < 3:
+        ds = local_defs(fn, e['did'])       # a named condition: `bool const same = a == b; if (!same) ...`
+        if len(ds) == 1 and ds[0][0]['k'] == 'decl':
+            return eval3(ds[0][1], leaf, fn, depth + 1)
     if e['k'] == 'bin' and e['op'] in ('&&', '||'):
-        a, b = eval3(e['lhs'], leaf), eval3(e['rhs'], leaf)
+        a, b = eval3(e['lhs'], leaf, fn, depth), eval3(e['rhs'], leaf, fn, depth)
         if e['op'] == '&&':
             return False if (a is False or b is False) else (None if (a is None or b is None) else True)
         return True if (a is True or b is True) else (None if (a is None or b is None) else False)
     h = expr_helper(e)
     if h is not None:
-        return eval3(h[1], leaf)        # a helper that only computes a value stands for that value
+        return eval3(h[1], leaf, fn, depth)        # a helper that only computes a value stands for that value
     return None
 
 
